@@ -336,6 +336,11 @@ def _rand_layout(rng, depth, allow_record=True, allow_union=False):
         elif kind == "unmasked" and not isopt and L.get("c") != "Indexed":
             L = {"c": "Unmasked", "x": L}
             isopt = True
+        elif kind == "reg" and rng.random() < 0.1:
+            # lists of fixed size 0: the length is the node's own (zeros_length), not derived from the content
+            zl = rng.randint(0, 3)
+            L = {"c": "Regular", "size": 0, "zl": zl, "x": L}
+            length, isopt = zl, False
         elif kind == "reg" and length >= 2:
             size = rng.choice([1, 2, 3])
             L = {"c": "Regular", "size": size, "zl": 0, "x": L}
@@ -394,6 +399,12 @@ def _rand_record_layout(rng, depth, allow_union=False):
         if not isopt and rng.random() < 0.6:
             L, length = _wrap_option(rng, L, length)
             isopt = True
+        elif rng.random() < 0.25:
+            # fixed-size lists of records, size 0 included (length held by the node itself)
+            size = rng.choice([0, 1, 2])
+            zl = rng.randint(1, 3) if size == 0 else 0
+            L = {"c": "Regular", "size": size, "zl": zl, "x": L}
+            length, isopt = (zl if size == 0 else length // size), False
         else:
             k = rng.randint(0, 4)
             cuts = sorted(rng.randint(0, length) for _ in range(k + 1))
